@@ -363,3 +363,11 @@ def inputs_for(d, options=None):
         pairs = draw(st.permutations(pairs)) if len(pairs) > 1 and draw(st.booleans()) else pairs
         return {"t": "dict", "v": [list(p) for p in pairs]}
     return build()
+
+
+def from_data(cls):
+    """callable(data: dict) -> instance, for every base (@utype.dataclass classes have no __from__)"""
+    f = getattr(cls, "__from__", None)
+    if f is not None:
+        return f
+    return lambda data: cls(**data)
